@@ -81,7 +81,17 @@ def place(rng, existing, extra):
 def fold_disabled(rng, lines):
     """`disabled` need not stand alone: half of the time it is merged into another #[strum(...)] list of the same
     variant (before or after the other entries), or gets a neighbour of its own."""
-    if MINIMAL[0] or "#[strum(disabled)]" not in lines or rng.random() < 0.4:
+    if MINIMAL[0] or "#[strum(disabled)]" not in lines:
+        return lines
+    r = rng.random()
+    if r < 0.15:
+        # a strum attribute, something foreign, then `disabled`: helper attributes need not be contiguous
+        j = lines.index("#[strum(disabled)]")
+        return lines[:j] + ['#[strum(props(before = "x"))]', "/// a doc comment in between", "#[strum(disabled)]"] + lines[j + 1:]
+    if r < 0.25:
+        j = lines.index("#[strum(disabled)]")
+        return lines[:j] + ["#[strum(disabled)]", "#[allow(dead_code)]", '#[strum(props(after = "x"))]'] + lines[j + 1:]
+    if r < 0.5:
         return lines
     others = [i for i, l in enumerate(lines) if l.startswith("#[strum(") and l != "#[strum(disabled)]" and l.endswith(")]")]
     out = list(lines)
